@@ -13,6 +13,7 @@ from translate import c04_formulas as tr
 from translate import c04_inverse as tri
 from translate import c04_rounded as trr
 from translate import c04_inplace as trp
+from translate import c04_state as trs
 
 MANIFEST = dict(
     technique='Rocq proof over R (ring/field/nsatz/nra) on formulas, a dispatch table and a Gauss-Jordan row-operation '
@@ -94,6 +95,7 @@ GJT_IMPORTS = ['Coq.Lists.List', 'Coq.Bool.Bool', 'Coq.QArith.QArith', 'SV.Rot.R
 COPIES_IMPORTS = ['Coq.Lists.List', 'Coq.Bool.Bool', 'SV.Rot.RotCopies', 'SV.Gen.RotCopies_gen']
 METHOD_IMPORTS = ['Coq.Lists.List', 'Coq.Bool.Bool', 'SV.Rot.RotMethods', 'SV.Gen.RotMethods_gen']
 INPLACE_IMPORTS = ['Coq.Lists.List', 'Coq.Bool.Bool', 'SV.Rot.RotInplace', 'SV.Gen.RotInplace_gen']
+STATE_IMPORTS = ['Coq.Lists.List', 'Coq.Bool.Bool', 'SV.Rot.RotState', 'SV.Gen.RotState_gen']
 ROUND_IMPORTS = ['Coq.Lists.List', 'Coq.Bool.Bool', 'Coq.QArith.QArith', 'SV.Rot.RotRound', 'SV.Gen.RotRounded_gen']
 TOL = 1e-9
 GIMBAL = 0.001
@@ -112,7 +114,7 @@ def bits(x: float) -> bytes:
 # STAGE_SECONDS_AFTER_HANG each, so that a hanging implementation costs about 10 minutes in total and not 11 x STAGE_SECONDS.
 _CURRENT: list[Any] = [None]
 STAGES = ('correspondence-formulas', 'correspondence-dispatch', 'correspondence-angle-operand', 'correspondence-inverse',
-          'correspondence-inplace-census', 'correspondence-rounding', 'correspondence-euler-float', 'search-operands',
+          'correspondence-inplace-census', 'correspondence-state-census', 'correspondence-rounding', 'correspondence-euler-float', 'search-operands',
           'search-identities', 'search-composed', 'search-inplace', 'search-conversions', 'search-histories')
 STAGE_SECONDS = 300
 STAGE_SECONDS_AFTER_HANG = 30
@@ -1589,6 +1591,81 @@ def theorems_with_axioms(ck: Ck, props_file: str = 'Props/C04.v') -> None:
                   ('' if used <= allowed else ' -- UNEXPECTED: ' + ', '.join(sorted(used - allowed))))
 
 
+def _stateful(v: Any) -> str | None:
+    """The object can carry something from one call to the next (by its class, at run time)."""
+    import collections
+    if isinstance(v, (dict, list, set, bytearray, collections.deque)):
+        return type(v).__name__
+    if any(hasattr(v, a) for a in ('cache_info', 'cache_clear', 'cache_parameters')):
+        return f'{type(v).__name__} (a cache wrapper)'
+    return None
+
+
+def corr_state_census(ck: Ck) -> None:
+    """The census of long-lived objects read from the source against the RUNNING module: every module-level / class-level object
+    of a mutable class (dict, list, set, bytearray, deque, cache wrappers), every function attribute, every mutable default
+    value and every mutable object held in a closure cell that exists at run time must be known to the census."""
+    import inspect
+    import srctools.math as sm
+    A = trs.analyse()
+    bad: list[str] = []
+    n_obj = n_fn = 0
+    flagged = bool(A['decorators'] or A['class_writes'] or A['reflective'])
+    funcs: list[tuple[str, Any]] = []
+
+    def functions_of(name: str, v: Any) -> None:
+        for f in ([v.fget, v.fset, v.fdel] if isinstance(v, property) else [getattr(v, '__func__', v)]):
+            if inspect.isfunction(f):
+                funcs.append((name, f))
+    classes: dict[int, type] = {}
+    for name, v in vars(sm).items():
+        if name.startswith('__') and name.endswith('__'):
+            continue
+        if isinstance(v, type) and v.__module__ == sm.__name__:
+            classes[id(v)] = v
+            continue
+        n_obj += 1
+        kind = _stateful(v)
+        if kind and name not in A['long_lived_module'] and not flagged:
+            bad.append(f'module-level `{name}` is a {kind} at run time, unknown to the census')
+        if getattr(v, '__module__', None) == sm.__name__:
+            functions_of(name, v)
+    for cls in classes.values():
+        for k, a in vars(cls).items():
+            if k.startswith('__') and k.endswith('__') and not inspect.isfunction(a):
+                continue
+            if issubclass(cls, tuple) and hasattr(cls, '_fields') and k in ('_field_defaults', '_fields'):
+                continue      # written by the NamedTuple machinery when the class statement runs
+            n_obj += 1
+            kind = _stateful(a)
+            if kind and not any(q.endswith('.' + k) for q in A['long_lived_class']) and not flagged:
+                bad.append(f'class-level `{cls.__name__}.{k}` is a {kind} at run time, unknown to the census')
+            functions_of(f'{cls.__name__}.{k}', a)
+    for name, f in funcs:
+        n_fn += 1
+        extra = [k for k in vars(f) if not (k.startswith('__') and k.endswith('__'))]
+        if extra and not flagged:
+            bad.append(f'function `{name}` carries the attributes {extra}')
+        dfl = list(f.__defaults__ or ()) + list((f.__kwdefaults__ or {}).values())
+        if any(_stateful(d) for d in dfl) and not A['defaults']:
+            bad.append(f'function `{name}` has a mutable default value, unknown to the census')
+        for cell in (f.__closure__ or ()):
+            try:
+                cv = cell.cell_contents
+            except ValueError:
+                continue
+            if _stateful(cv) and not flagged:
+                bad.append(f'function `{name}` holds a {_stateful(cv)} in a closure cell, unknown to the census')
+    ck.count('state_census_runtime_objects', n_obj)
+    ck.count('state_census_runtime_functions', n_fn)
+    ck.extra['state_census_runtime'] = {'objects': n_obj, 'functions': n_fn, 'classes': len(classes)}
+    ck.obligation('correspondence:state-census', not bad and n_fn >= 200,
+                  f'{n_obj} module-level / class-level objects and {n_fn} functions of the running module scanned; '
+                  + ('every mutable one is known to the census' if not bad else 'DISAGREE: ' + '; '.join(bad[:6])))
+    if bad:
+        ck.tie_broken.append('state census disagrees with the running module')
+
+
 def corr_inplace_census(ck: Ck) -> None:
     """The census of in-place methods read from the source (class bodies + expanded exec() templates) against the running
     classes: per class the same set of in-place names in `vars(cls)`, and every name resolves through the MRO as predicted."""
@@ -1812,6 +1889,10 @@ def run(ck: Ck) -> None:
     ]
     ck.trusted += ['translate/c04_inplace.py (in-place census: expansion of the exec() templates and path classification; its '
                    'per-class method sets are compared with vars() of the running classes on every run)']
+    ck.trusted += ['translate/c04_state.py (census of process state: which module-level / class-level objects are mutable, which '
+                   'function bodies read / update them, decorators, defaults, global declarations, reflective access, imports; '
+                   'compared with the objects, function attributes, defaults and closure cells of the running module on every '
+                   'run); that the census is a FOOTPRINT of the real calls is the visible hypothesis of c04_history_independent']
     ck.trusted += ['translate/c04_formulas.py symbolic executors (formulas: tied bit-for-bit to the implementation on every run; '
                    'dispatch: every table row compared with the implementation on every run)',
                    'Coq.Reals classical axioms (listed per theorem in axioms_per_theorem)',
@@ -1829,12 +1910,14 @@ def run(ck: Ck) -> None:
     ok_ip = ck.translate('RotInplace_gen', trp.translate_inplace)
     ok_im = ok_f and ok_d and ck.translate('RotMethods_gen', trp.translate_methods)
     ok_cp = ck.translate('RotCopies_gen', trp.translate_copies)
+    ok_st = ck.translate('RotState_gen', trs.translate_state)
     A = tr.analyse() if (ok_f and ok_d) else None
     built = False
     # 1. models and generated objects (definitions only: these compile whatever the source computes)
     models = ck.build(['Rot/RotGJ.vo', 'Rot/RotGJTotal.vo', 'Rot/RotGJFloat.vo', 'Rot/RotDispatch.vo', 'Rot/RotReify.vo', 'Rot/RotRound.vo',
-                       'Rot/RotInplace.vo', 'Rot/RotMethods.vo', 'Rot/RotCopies.vo']
+                       'Rot/RotInplace.vo', 'Rot/RotMethods.vo', 'Rot/RotCopies.vo', 'Rot/RotState.vo']
                       + (['Gen/RotCopies_gen.vo'] if ok_cp else [])
+                      + (['Gen/RotState_gen.vo'] if ok_st else [])
                       + (['Gen/RotInplace_gen.vo'] if ok_ip else [])
                       + (['Gen/RotMethods_gen.vo'] if ok_im else [])
                       + (['Gen/RotFormulas_gen.vo', 'Gen/RotDispatch_gen.vo'] if A is not None else [])
@@ -1885,6 +1968,25 @@ def run(ck: Ck) -> None:
             'matrix_copies_are_new_objects_of_the_right_class': 'forallb crow_ok copy_table',
             'matrix_copies_ok': 'copies_ok copy_table',
         })
+    if ok_st and models:
+        # census of process state (round 5): nothing that outlives a call is updated by a function, no caching decorator, no
+        # mutable default, no global declaration, no reflective access, no foreign import -> every call of a history returns
+        # what it returns alone (state_ok_history_independent)
+        group(STATE_IMPORTS, {
+            'state_no_function_reads_a_long_lived_object_that_a_function_updates': 'reads_not_written state_census_today',
+            'state_no_long_lived_object_is_updated_by_a_function': 'no_long_lived_object_updated state_census_today',
+            'state_no_class_or_function_attribute_is_stored_by_a_function': 'no_class_attribute_stored state_census_today',
+            'state_no_caching_decorator': 'no_caching_decorator state_census_today',
+            'state_no_mutable_parameter_default': 'no_mutable_default state_census_today',
+            'state_no_global_declaration': 'no_global_declaration state_census_today',
+            'state_no_reflective_access_inside_functions': 'no_reflective_access state_census_today',
+            'state_no_import_from_outside_the_standard_library': 'no_foreign_import state_census_today',
+            'state_census_ok': 'state_ok state_census_today',
+        })
+        S = trs.analyse()
+        ck.extra['state_census'] = {k: S[k] for k in ('long_lived_module', 'long_lived_class', 'read_sites', 'writes', 'write_sites',
+                                                      'class_writes', 'decorators', 'defaults', 'globals', 'reflective', 'imports',
+                                                      'functions', 'template_functions', 'references')}
     if ok_im and models:
         # the in-place rotation METHODS, executed symbolically: the receiver ends up holding the pure operator form
         group(METHOD_IMPORTS, {
@@ -1961,7 +2063,7 @@ def run(ck: Ck) -> None:
         built = core and ck.build(['Props/C04.vo'])
         if built:
             theorems_with_axioms(ck)
-            if ok_i and ok_ip and ok_im:
+            if ok_i and ok_ip and ok_im and ok_st:
                 # today's generated table / program / census meet the hypotheses of c04_property (one Example, kernel-checked)
                 ck.build(['Props/C04Today.vo'])
     # 4. correspondences and 5. searches, each under `guarded` (exception / hang -> violation with the input in flight)
@@ -1974,6 +2076,8 @@ def run(ck: Ck) -> None:
         guarded(ck, found, 'correspondence-inverse', corr_inverse, ck)
     if ok_ip:
         guarded(ck, found, 'correspondence-inplace-census', corr_inplace_census, ck)
+    if ok_st:
+        guarded(ck, found, 'correspondence-state-census', corr_state_census, ck)
     if ok_rr:
         guarded(ck, found, 'correspondence-rounding', corr_rounding, ck)
         guarded(ck, found, 'correspondence-euler-float', corr_euler_float, ck, found)
@@ -2005,6 +2109,11 @@ def run(ck: Ck) -> None:
         ck.explain('translate:RotInplace_gen')
     if any(k.startswith('inplace-method-') for k in keys):
         ck.explain('translate:RotMethods_gen')
+    if any(k.startswith('history:') for k in keys):
+        # a call that answers differently after a history: the state the census rejected (or could not read) is really used
+        ck.explain('instance:state_')
+        ck.explain('translate:RotState_gen')
+        ck.explain('correspondence:state-census')
     if any(k.startswith('conversion:') for k in keys):
         ck.explain('translate:RotCopies_gen')
         ck.explain('instance:matrix_copies_')
@@ -2024,7 +2133,7 @@ def run(ck: Ck) -> None:
         ck.explain('translate:Rot')
     # Props/C04Today.v is the conjunction of five instance obligations: it fails with them and is explained with them
     if any(o['name'] in ('instance:dispatch_table_ok', 'instance:inverse_prog_ok', 'instance:inverse_total_on_rotations',
-                         'instance:inplace_census_ok', 'instance:inplace_methods_ok') and not o['ok'] and o.get('explained') for o in ck.obligations):
+                         'instance:inplace_census_ok', 'instance:inplace_methods_ok', 'instance:state_census_ok') and not o['ok'] and o.get('explained') for o in ck.obligations):
         ck.explain('build:Props/C04Today.vo')
     explain_build(ck, keys)
 
